@@ -117,6 +117,9 @@ func Compare(ex *Expect, o *Outcome, f Facets) []string {
 	}
 	keys := make([]string, 0, len(ex.Vals))
 	for k := range ex.Vals {
+		if len(ex.UnspecVals) > 0 {
+			break
+		}
 		keys = append(keys, k)
 	}
 	sort.Strings(keys)
